@@ -20,9 +20,19 @@ theorem C11_reach_iff_history (s : State) :
 
 /-! ## two views, one value -/
 
-/-- After every history: the attribute `name` of every cell of the grid and the entry of the layer
-    attached under `name` are the same value — whatever single-cell writes, bulk operations
-    (including re-pointing `modify_cells`), additions and removals of layers came before. -/
+/-- The code keeps the layers of a cell space in two registries written by separate statements of
+    `add_property_layer` / `remove_property_layer`: the grid's dict `_mesa_property_layers` (what `grid.<name>`,
+    `set_property`, `select_cells` use) and the `PropertyDescriptor`s on the grid's cell class (what a cell attribute
+    uses; each holds the layer object it was made for).  After every history they are the same map: no name has a
+    descriptor without a dict entry or the other way round, and the descriptor holds the very layer the dict names. -/
+theorem C11_descriptors_are_the_layer_dict {s : State} (h : Reach s) (hi : s.impl = .new) (n : String) :
+    s.descr.lookup n = s.named? n ∧ s.cellLayer? n = s.named? n :=
+  ⟨h.wf.descr_eq hi n, cellLayer?_eq h.wf n⟩
+
+/-- After every history: the attribute `name` of every cell of the grid (read through the descriptor on the cell
+    class) and the entry of the layer attached under `name` (the grid's dict) are the same value — whatever
+    single-cell writes, bulk operations (including re-pointing `modify_cells`), additions and removals of layers came
+    before.  (Not a fact about arbitrary states: see the example next to `demo` below.) -/
 theorem C11_two_views_one_value {s : State} (h : Reach s) {n : String} {l : Nat}
     (hn : s.named? n = some l) {c : Coord} (hc : inBounds s.dims c = true) :
     cellGet s n c = layerGet s l c ∧ layerGet s l c = .val (s.value l c) := by
@@ -41,7 +51,7 @@ theorem C11_cell_write_read_through_layer {s s' : State} (h : Reach s) {n : Stri
   have hw := h.wf
   have hl := hw.att_lt n l hn
   obtain ⟨hc, hs'⟩ := cellSet_ok_attached hw hn hset
-  have hw' : WF s' := hw.of_sameShape (by rw [hs']; exact ⟨rfl, rfl, rfl, rfl, rfl, rfl, rfl, rfl, rfl⟩)
+  have hw' : WF s' := hw.of_sameShape (by rw [hs']; exact ⟨rfl, rfl, rfl, rfl, rfl, rfl, rfl, rfl, rfl, rfl⟩)
   have e1 : s'.nLayers = s.nLayers := by rw [hs']
   have e2 : s'.layers = s.layers := by rw [hs']
   have e3 : s'.named? n = some l := by rw [hs']; exact hn
@@ -72,7 +82,7 @@ theorem C11_layer_write_read_through_cell {s s' : State} (h : Reach s) {l : Nat}
     ∀ l' c', l' < s.nLayers → (l' ≠ l ∨ c' ≠ c) → s'.value l' c' = s.value l' c' := by
   have hw := h.wf
   obtain ⟨hl, hc, hs'⟩ := layerSet_ok hset
-  have hw' : WF s' := hw.of_sameShape (by rw [hs']; exact ⟨rfl, rfl, rfl, rfl, rfl, rfl, rfl, rfl, rfl⟩)
+  have hw' : WF s' := hw.of_sameShape (by rw [hs']; exact ⟨rfl, rfl, rfl, rfl, rfl, rfl, rfl, rfl, rfl, rfl⟩)
   have e1 : s'.nLayers = s.nLayers := by rw [hs']
   have e2 : s'.layers = s.layers := by rw [hs']
   have e3 : ∀ n, s'.named? n = s.named? n := by intro n; rw [hs']; rfl
@@ -259,7 +269,7 @@ theorem C11_write_through_live_reference {s s' : State} (h : Reach s) {l : Nat} 
   rw [hh] at hlk
   simp only [Option.some.injEq, Prod.mk.injEq] at hlk
   obtain ⟨rfl, rfl⟩ := hlk
-  have hw' : WF s' := hw.of_sameShape (by rw [hs']; exact ⟨rfl, rfl, rfl, rfl, rfl, rfl, rfl, rfl, rfl⟩)
+  have hw' : WF s' := hw.of_sameShape (by rw [hs']; exact ⟨rfl, rfl, rfl, rfl, rfl, rfl, rfl, rfl, rfl, rfl⟩)
   have e3 : ∀ n, s'.named? n = s.named? n := by intro n; rw [hs']; rfl
   have e4 : s'.dims = s.dims := by rw [hs']
   have hv : ∀ l' c', l' < s.nLayers → s'.value l' c' =
@@ -307,7 +317,7 @@ theorem C11_typed_cell_write_one_value {s s' : State} (h : Reach s) {n : String}
     layerGet s' l c = .val (castTo (s.dtypeOf l) x) ∧ cellGet s' n c = .val (castTo (s.dtypeOf l) x) ∧
     s'.dtypeOf l = s.dtypeOf l ∧
     ∀ l' c', l' < s.nLayers → (l' ≠ l ∨ c' ≠ c) → s'.value l' c' = s.value l' c' := by
-  simp only [step, State.cellWVal, hn] at hset
+  simp only [step, State.cellWVal, cellLayer?_eq h.wf, hn] at hset
   obtain ⟨h1, h2, h3⟩ := C11_cell_write_read_through_layer h hn hset
   refine ⟨h1, h2, ?_, h3⟩
   have := sameShape_cellSet s n c (castTo (s.dtypeOf l) x)
@@ -398,7 +408,7 @@ theorem C11_set_cells_array_pointwise {s : State} (h : Reach s) {l : Nat} (hl : 
   · have hw' : WF ({ s with heap := upd s.heap (s.layers l).data (fun c =>
           if condHolds cond (s.heap (s.layers l).data c) then recode (s.adt a) (s.dtypeOf l) (s.heap a c)
           else s.heap (s.layers l).data c) } : State) :=
-      hw.of_sameShape ⟨rfl, rfl, rfl, rfl, rfl, rfl, rfl, rfl, rfl⟩
+      hw.of_sameShape ⟨rfl, rfl, rfl, rfl, rfl, rfl, rfl, rfl, rfl, rfl⟩
     exact cellGet_eq_value hw' hn hc
 
 /-- `modify_cells` whose operation yields entries of type `rd` (`modifyCellsT`: the call past the `np.vectorize`
@@ -748,12 +758,13 @@ theorem C11_cell_protocol_names_reserved :
 /-- The built-in layer is an ordinary one: a fresh grid *is* the layer-less grid after
     `create_property_layer("empty", True, bool)`, a call the clash rule lets through. -/
 theorem C11_builtin_empty_is_created_layer (dims : List Nat) (cap : Nat) :
-    create { init .new dims cap with next := 0, nLayers := 0, attached := [] } "empty" .bool 1
+    create { init .new dims cap with next := 0, nLayers := 0, attached := [], descr := [] } "empty" .bool 1
       = (init .new dims cap, .id 0) := by
   have hfree : "empty" ∉ reservedNames := C11_cell_protocol_names_reserved.2
   unfold create attachCheck
   simp only [init, State.named?, List.lookup_nil, Option.isSome_none, ne_eq, not_true_eq_false,
-    if_false, Bool.false_eq_true, hfree, if_true, List.nil_append, Nat.zero_add, Prod.mk.injEq, and_true]
+    if_false, Bool.false_eq_true, hfree, if_true, List.nil_append, Nat.zero_add, setDescr, List.filter_nil,
+    Prod.mk.injEq, and_true]
   congr 1
   · funext j; simp [upd]
   · funext j; simp [upd]
@@ -1251,6 +1262,15 @@ private def demo : State :=
      .modifyCells 1 true (some (· * 2)) none]).1
 
 example : Reach demo := reach_run (Reach.init ..) _
+/-- `C11_two_views_one_value` needs reachability: in a state whose descriptor registry lost the entry the dict still has,
+    the cell attribute is gone while the layer is there — and after a history that adds, removes and re-adds layers
+    (one of them under the name of a removed one) the two registries do agree -/
+example : cellGet { init .new [1, 1] 0 with descr := [] } "empty" [0, 0] = .err .attr ∧
+    layerGet { init .new [1, 1] 0 with descr := [] } 0 [0, 0] = .val 1 := by decide
+example : (run (init .new [1, 2] 0) [.create "a" .int 3, .newLayer "a" [1, 2] .int 5, .detach "a", .attach 2,
+    .detach "empty", .cellGet "a" [0, 1]]).2.getLast? = some (.val 5) ∧
+    (run (init .new [1, 2] 0) [.create "a" .int 3, .newLayer "a" [1, 2] .int 5, .detach "a", .attach 2,
+    .detach "empty"]).1.descr = [("a", 2)] := by decide
 example : demo.named? "a" = some 1 ∧ inBounds demo.dims [1, 2] = true := by decide
 example : cellGet demo "a" [1, 2] = .val 12 ∧ layerGet demo 1 [1, 2] = .val 12 ∧ hget demo 0 [1, 2] = .val 6 := by decide
 example : empties demo = .emp (some [1, 0, 1, 1, 1, 1]) [true, false, true, true, true, true] := by decide
